@@ -156,6 +156,36 @@ def differential(model, feeds, function_bodies=True):
             if bad:
                 res["violation"] = {"pass": p.name, "kind": "declared_output_contradicts_runtime", "detail": bad}
                 return res
+    if function_bodies and len(model.functions):
+        # mirrors optimize_graph: after all top-level passes every pass runs over every function body
+        from jax2onnx.converter.ir_optimizations import iter_ir_functions
+
+        for p in _passes():
+            try:
+                for fn in iter_ir_functions(im.functions):
+                    g = getattr(fn, "graph", None)
+                    if g is not None:
+                        opt._run_function_optimizer_pass(p, g)
+                cur = ir.to_proto(im)
+            except Exception as e:
+                res["violation"] = {"pass": p.name, "stage": "function", "kind": "pass_raised", "detail": f"{type(e).__name__}: {str(e)[:300]}"}
+                return res
+            b = cur.SerializeToString()
+            if b == prev:
+                continue
+            prev = b
+            if p.name not in NEUTRAL:
+                res["fired"].append("fn:" + p.name)
+            try:
+                onnx.checker.check_model(cur, full_check=True)
+                got, _ = _run_any(cur, feeds)
+            except Exception as e:
+                res["violation"] = {"pass": p.name, "stage": "function", "kind": "invalid_after_pass", "detail": f"{type(e).__name__}: {str(e)[:300]}"}
+                return res
+            diff = _compare(ref, got)
+            if diff:
+                res["violation"] = {"pass": p.name, "stage": "function", "kind": "output_changed", "detail": diff}
+                return res
     res["final"] = prev
     return res
 
